@@ -38,6 +38,8 @@ var c11Emails = []c11Email{
 	{"bob@sub.corp.test", "subdomain-of-listed", false},
 	{"bob@corp.test.evil.test", "domain-as-prefix", false},
 	{"carol@other.test", "unlisted", false},
+	{"mallory@corp.test@evil.test", "listed-domain-before-a-second-at-sign", false},
+	{"alice@allowed.test@evil.test", "listed-address-before-a-second-at-sign", false},
 	{"a@b@corp.test", "two-at-signs", true},
 	{"@corp.test", "empty-local-part", true},
 	{"bób@corp.test", "non-ascii-local-part", false},
@@ -57,6 +59,8 @@ var c11Variants = []c11RuleVariant{
 	// several entries, written by hand in mixed case and in no particular order (byte order and
 	// case-folded order differ)
 	{"several-mixed-case", func(l string) []string { return []string{"Zulu-" + l, l, "Bravo-" + l, "mike-" + l} }},
+	// the listed value next to blank entries (a stray separator in a hand-written list)
+	{"listed+blank-entries", func(l string) []string { return []string{l, " ", ""} }},
 }
 
 // group rules only: entries written with padding (as `UPSTREAM_DEFAULT_GROUPS="eng, ops"` produces them)
@@ -292,6 +296,45 @@ func c11Run(c *fw.Ctx) {
 			c.Res.Note("%v", desc)
 		}
 	})
+	c11Joint(c)
+}
+
+// c11Joint — the allow rule for groups across BOTH services: a real proxy whose upstream lists one group,
+// joined to a real authenticator (its /profile endpoint parses the proxy's question) over a scripted identity
+// provider that reports the user's groups. For every group name of a list (blanks, punctuation, non-ASCII),
+// a user who is in exactly that group logs in through the whole chain and is admitted; a user who is in
+// another group is not.
+func c11Joint(c *fw.Ctx) {
+	names := []string{"eng", "Platform Engineering", "dev-ops/team", "\u00fcn\u00ef c\u00f6d\u00e9", "a+b", "50% club", "eng;ops", "Eng"}
+	drive(c, "joint-login/group-names", -1, func(x *explore.Exec, owned bool) {
+		name := names[x.Choose("listed-group", len(names))]
+		member := x.Choose("user-is-in", 2) == 0 // the listed group | another group
+		if !owned {
+			return
+		}
+		setNow(0)
+		doc := "- service: svca\n  default:\n    from: " + hostA + "\n    to: {{backend:a}}\n    options:\n      allowed_groups:\n        - '" + name + "'\n"
+		w := newC19WorldYAML(doc)
+		defer w.close()
+		w.userGroups = []string{"everyone", name}
+		if !member {
+			w.userGroups = []string{"everyone", name + "-contractors"}
+		}
+		_, _, err := w.login(func() harness.AuthAnswer { return ans(200, "{}") })
+		admitted := err == nil
+		c.Res.Outcome(fmt.Sprintf("joint|%s|member=%v|admitted=%v", name, member, admitted))
+		d := map[string]interface{}{"allowed_groups": []string{name}, "identity_provider_reports_groups": w.userGroups, "login": truncate(fmt.Sprint(err), 200)}
+		switch {
+		case member && !admitted:
+			c.Res.Violate(fw.Violation{Property: "C11", Key: "C11/joint-login/member-of-the-listed-group-refused/" + name, Scenario: "joint-login/group-names", Choices: x.Choices(), Detail: d,
+				What: fmt.Sprintf("a user whom the identity provider reports in the listed group %q could not log in through proxy and authenticator: %s", name, truncate(fmt.Sprint(err), 160))})
+		case !member && admitted:
+			c.Res.Violate(fw.Violation{Property: "C11", Key: "C11/joint-login/non-member-admitted/" + name, Scenario: "joint-login/group-names", Choices: x.Choices(), Detail: d,
+				What: fmt.Sprintf("a user who is not in the listed group %q was admitted", name)})
+		case member:
+			c.Res.Count("positive_joint_logins_admitted", 1)
+		}
+	})
 }
 
 func served(r *harness.Response) string {
@@ -340,7 +383,7 @@ func init() {
 	fw.Register(&fw.Check{
 		ID:    "C11",
 		Level: "exploration",
-		Rule: "full product on a proxy built like cmd/sso-proxy (validators exactly as proxy.New builds them): rule sets = every combination of {absent, listed value, lone *, * with another value, four hand-written entries in mixed case and no particular order} for addresses, domains and groups, plus for groups a list with padded entries (149 policies) x 18 emails (the listed domain with its dot replaced, exact, case-varied, prefix/suffix look-alikes, plus-tagged and dotted variants of a listed address, look-alike domain, sub-domain, domain as prefix, unlisted, two @, empty local part, non-ASCII local part / domain) x what the scripted authenticator reports {only the asked-about groups the user is in (as the real one does), every group the user is in} x directory {membership moving from the listed group to another group after login, in a group that the rule lists with padding, in listed group, in none, error 500, unavailable 503, rate-limited 429, only in groups whose names extend a listed name, only in groups whose names are prefixes of a listed name, only in groups whose names differ from the listed one in letter case}; " +
+		Rule: "(joint-login/group-names) real proxy + real authenticator + scripted identity provider: for each listed group name {plain, with a blank, slash, non-ASCII, '+', '%', ';', case variant} a member logs in through the whole chain and is admitted, a member of a similarly named group is not; (stages) full product on a proxy built like cmd/sso-proxy (validators exactly as proxy.New builds them): rule sets = every combination of {absent, listed value, lone *, * with another value, four hand-written entries in mixed case and no particular order, the listed value next to blank entries} for addresses, domains and groups, plus for groups a list with padded entries (149 policies) x 18 emails (the listed domain with its dot replaced, exact, case-varied, prefix/suffix look-alikes, plus-tagged and dotted variants of a listed address, look-alike domain, sub-domain, domain as prefix, unlisted, two @, empty local part, non-ASCII local part / domain) x what the scripted authenticator reports {only the asked-about groups the user is in (as the real one does), every group the user is in} x directory {membership moving from the listed group to another group after login, in a group that the rule lists with padding, in listed group, in none, error 500, unavailable 503, rate-limited 429, only in groups whose names extend a listed name, only in groups whose names are prefixes of a listed name, only in groups whose names differ from the listed one in letter case}; " +
 			"thorough adds rule variants {listed value in upper case, another value + the listed one} and emails {empty, leading/trailing space, case-varied sub-domain, the bare listed domain, a listed address used as local part}; " +
 			"each case logs in through the real callback, sends a request while no check is due, one after the validity TTL and one after the access token ran out and was refreshed (the scripted authenticator honours only the latest token it issued); oracle = the documented any-of semantics and the same verdict at all three stages (emails whose reading the statement leaves open: consistency only); " +
 			"distinct_nontrivial = distinct (rule set, email class, directory, verdict triple) among cases admitted at login",
